@@ -3,7 +3,13 @@
 Regenerated from the current source on every run:
   * the skip test of OrderedState.__getstate__ (`if k in ignore: continue`), its polarity and operand order;
   * the `ignore` constants handed over by DataMatrix/BaseColumn/Index.__getstate__ (a str: substring test!);
-  * the id increment of DataMatrix.__setstate__ and the sortedness test of DataMatrix._to_list;
+  * the bookkeeping of the global family-id counter `_id` in DataMatrix.__init__, __setstate__ and _mutate: the
+    statements `global _id`, `object.__setattr__(self, u'_id', E)`, `_id += E` / `_id = E` are executed symbolically
+    IN THE ORDER IN WHICH THEY OCCUR and become k_init_ids / k_setstate_ids / k_mutate_ids : counter -> (id the
+    object ends up with, counter afterwards); the start value of the counter; no other function may touch `_id`;
+  * the sortedness test of DataMatrix._to_list;
+  * which cell list to_pandas hands to pandas (`list(col)` or `col._printable_list()`), for the column and for the
+    DataMatrix branch, and the depth test of _SeriesColumn._printable_list (rows kept vs ellipsized into text);
 Everything else these functions do is *pinned*: the statement lists of __getstate__/__setstate__, of
 io.readpickle/writepickle, convert.to_json/from_json and convert.to_pandas must be exactly the ones the hand-written
 skeleton of Model/Persist.v mirrors, otherwise translation fails (fail closed)."""
@@ -73,6 +79,126 @@ def getstate_ignore(tree, qual):
     return ign_const(call.keywords[0].value)
 
 
+# ---------------------------------------------------------------- the global id counter
+def _is_setattr_id(node):
+    """object.__setattr__(<obj>, u'_id', E) -> (obj source, E) or None"""
+    if not (isinstance(node, ast.Expr) and isinstance(node.value, ast.Call)):
+        return None
+    c = node.value
+    if dump(c.func) != dump(ast.parse('object.__setattr__', mode='eval').body) or len(c.args) != 3 or c.keywords:
+        return None
+    if not (isinstance(c.args[1], ast.Constant) and c.args[1].value == '_id'):
+        return None
+    return ast.unparse(c.args[0]), c.args[2]
+
+
+def ids_kernel(fn, what, pins, own0=None):
+    """Symbolic execution, in statement order, of what `fn` does with the global counter `_id` and with the `_id`
+    attribute of `self`.  Returns the Coq body of a function of the counter `n` (and of `own`, the id the object had
+    before, when own0 is given) yielding (id of the object afterwards, counter afterwards).  All other statements
+    must be exactly `pins`, in this order, and must not mention `_id` at all."""
+    lets, rest = [], []
+    ctr, own, seen_global, k = 'n', own0, False, 0
+
+    def env():
+        b = [('_id', ctr, 'Z')] if seen_global else []
+        if own is not None:
+            b.append(('self._id', own, 'Z'))
+        return Env(b)
+    for node in body_nodoc(fn):
+        if isinstance(node, ast.Global):
+            if node.names != ['_id']:
+                raise TranslationError('%s: global %s' % (what, node.names))
+            seen_global = True
+            continue
+        sa = _is_setattr_id(node)
+        if sa is not None:
+            if sa[0] != 'self':
+                raise TranslationError('%s: _id of %s is assigned' % (what, sa[0]))
+            k += 1
+            lets.append('let o%d := %s in' % (k, tr_typed(sa[1], env(), 'Z')))
+            own = 'o%d' % k
+            continue
+        tgt = None
+        if isinstance(node, ast.AugAssign) and isinstance(node.target, ast.Name) and node.target.id == '_id':
+            tgt = ast.BinOp(ast.Name('_id', ast.Load()), node.op, node.value)
+        elif isinstance(node, ast.Assign) and len(node.targets) == 1 and isinstance(node.targets[0], ast.Name) \
+                and node.targets[0].id == '_id':
+            tgt = node.value
+        if tgt is not None:
+            if not seen_global:
+                raise TranslationError('%s: `_id` is assigned before `global _id`' % what)
+            k += 1
+            lets.append('let c%d := %s in' % (k, tr_typed(tgt, env(), 'Z')))
+            ctr = 'c%d' % k
+            continue
+        rest.append(node)
+    for node in rest:
+        for sub in ast.walk(node):
+            if (isinstance(sub, ast.Name) and sub.id == '_id') or (isinstance(sub, ast.Attribute) and sub.attr == '_id') \
+                    or (isinstance(sub, ast.Constant) and sub.value == '_id'):
+                raise TranslationError('%s: `_id` is used in `%s`' % (what, ast.unparse(node)[:80]))
+    if len(rest) != len(pins):
+        raise TranslationError('%s: %d statements besides the id bookkeeping, expected %d' % (what, len(rest), len(pins)))
+    for node, src in zip(rest, pins):
+        expect_same(node, src, what)
+    if own is None or not seen_global:
+        raise TranslationError('%s: no id is assigned / no `global _id`' % what)
+    return ' '.join(lets + ['(%s, %s)' % (own, ctr)])
+
+
+def id_writers(tree):
+    """qualified names of all functions that declare `global _id` or assign the name `_id`, and the module-level
+    start value"""
+    out, start = [], None
+    for node in tree.body:
+        if isinstance(node, ast.Assign) and any(isinstance(t, ast.Name) and t.id == '_id' for t in node.targets):
+            if start is not None or not (isinstance(node.value, ast.Constant) and type(node.value.value) is int):
+                raise TranslationError('module-level `_id`: %s' % ast.unparse(node))
+            start = node.value.value
+
+    def visit(node, qual):
+        for ch in ast.iter_child_nodes(node):
+            if isinstance(ch, ast.ClassDef):
+                visit(ch, qual + [ch.name])
+            elif isinstance(ch, (ast.FunctionDef, ast.AsyncFunctionDef)):
+                q = '.'.join(qual + [ch.name])
+                for sub in ast.walk(ch):
+                    if (isinstance(sub, ast.Global) and '_id' in sub.names) or \
+                            (isinstance(sub, ast.Name) and sub.id == '_id' and isinstance(sub.ctx, (ast.Store, ast.Del))):
+                        if q not in out:
+                            out.append(q)
+                visit(ch, qual + [ch.name])
+            elif not isinstance(ch, (ast.expr, ast.expr_context)):
+                visit(ch, qual)
+    visit(tree, [])
+    if start is None:
+        raise TranslationError('no module-level `_id = <int>`')
+    return sorted(out), start
+
+
+def contains_stmts(fn, srcs, what):
+    """the statements `srcs` occur in this order (not necessarily adjacent) at the top level of fn"""
+    body = body_nodoc(fn)
+    i = 0
+    for src in srcs:
+        ref = dump(ast.parse(src).body[0])
+        while i < len(body) and dump(body[i]) != ref:
+            i += 1
+        if i == len(body):
+            raise TranslationError('%s: statement `%s` not found (in order)' % (what, src))
+        i += 1
+
+
+def cell_source(node, var, what):
+    """`list(var)` -> SrcList, `var._printable_list()` -> SrcPrintable"""
+    if dump(node) == dump(ast.parse('list(%s)' % var, mode='eval').body):
+        return 'SrcList'
+    if dump(node) == dump(ast.parse('%s._printable_list()' % var, mode='eval').body):
+        return 'SrcPrintable'
+    raise TranslationError('%s: cells are taken from `%s`' % (what, ast.unparse(node)))
+
+
 LEGACY = "if isinstance(state, dict):\n    warn(u'Unpickling an old datamatrix')\n    self.__dict__.update(state)\n    return"
 
 
@@ -125,18 +251,33 @@ def gen(repo):
                     if isinstance(ch, ast.FunctionDef) and ch.name in ('__getstate__', '__setstate__', '__reduce__',
                                                                        '__reduce_ex__', '__getnewargs__'):
                         raise TranslationError('%s overrides %s' % (cls, ch.name))
-    # ---- DataMatrix.__setstate__
-    st = find_function(t_dm, 'DataMatrix.__setstate__')
-    body = pin_body(st, [LEGACY, 'global _id', 'OrderedState.__setstate__(self, state)',
-                         "object.__setattr__(self, u'_id', _id)",
-                         'for name, column in self.columns:\n    column._datamatrix = self', None],
-                    'DataMatrix.__setstate__')
-    inc = body[5]
-    if not (isinstance(inc, ast.AugAssign) and isinstance(inc.target, ast.Name) and inc.target.id == '_id'):
-        raise TranslationError('DataMatrix.__setstate__: id increment')
-    nxt = tr_typed(ast.BinOp(ast.Name('_id', ast.Load()), inc.op, inc.value), Env([('_id', 'n', 'Z')]), 'Z')
-    out.append('(* DataMatrix.__setstate__: the global id counter after handing out the new family id *)\n'
-               'Definition k_next_id (n : Z) : Z := %s.\n' % nxt)
+    # ---- the global family-id counter: __init__, __setstate__, _mutate (and nobody else)
+    writers, start = id_writers(t_dm)
+    if writers != ['DataMatrix.__init__', 'DataMatrix.__setstate__', 'DataMatrix._mutate']:
+        raise TranslationError('functions writing the global `_id`: %s' % writers)
+    out.append('(* the global family-id counter of _datamatrix.py when the module is imported *)\n'
+               'Definition k_id_start : Z := (%d)%%Z.\n' % start)
+    init = ids_kernel(find_function(t_dm, 'DataMatrix.__init__'), 'DataMatrix.__init__', [
+        "try:\n    length = int(length)\nexcept ValueError:\n    raise TypeError('length should be an integer')",
+        "object.__setattr__(self, u'_cols', OrderedDict())",
+        "object.__setattr__(self, u'_rowid', Index(length))",
+        "object.__setattr__(self, u'_default_col_type', default_col_type)",
+        "object.__setattr__(self, u'_sorted', True)",
+        "for column_name, val in columns.items():\n    self[column_name] = val"])
+    out.append('(* DataMatrix.__init__: counter n -> (the _id of the new object, the counter afterwards), '
+               'the id statements taken in source order *)\n'
+               'Definition k_init_ids (n : Z) : Z * Z := %s.\n' % init)
+    sst = ids_kernel(find_function(t_dm, 'DataMatrix.__setstate__'), 'DataMatrix.__setstate__', [
+        LEGACY, 'OrderedState.__setstate__(self, state)',
+        'for name, column in self.columns:\n    column._datamatrix = self'])
+    out.append('(* DataMatrix.__setstate__: counter n -> (the _id of the restored object, the counter afterwards) *)\n'
+               'Definition k_setstate_ids (n : Z) : Z * Z := %s.\n' % sst)
+    mut = ids_kernel(find_function(t_dm, 'DataMatrix._mutate'), 'DataMatrix._mutate', [], own0='own')
+    out.append('(* DataMatrix._mutate: (the _id the object has, counter n) -> (its _id afterwards, the counter afterwards) *)\n'
+               'Definition k_mutate_ids (own n : Z) : Z * Z := %s.\n' % mut)
+    # derived tables: constructed (which consumes a counter value) and then given the family of their source
+    for q in ('DataMatrix._selectrowid', 'DataMatrix._slice', 'DataMatrix._merge'):
+        contains_stmts(find_function(t_dm, q), ['dm = DataMatrix(len(_rowid))', "object.__setattr__(dm, u'_id', self._id)"], q)
     for node in ast.walk(t_dm):
         if isinstance(node, ast.ClassDef) and node.name == 'DataMatrix':
             for ch in node.body:
@@ -184,9 +325,51 @@ def gen(repo):
         dm[name]._seq = seq""", 'return dm'], 'convert.from_json')
     # ---- convert._pandas
     t_pd = load(repo, 'datamatrix/convert/_pandas.py')
-    pin_body(find_function(t_pd, 'to_pandas'), [
-        'if isinstance(obj, BaseColumn):\n    return pd.Series(list(obj), dtype=None)',
-        "if not isinstance(obj, DataMatrix):\n    raise TypeError('Expecting a column or DataMatrix')",
-        'd = {}', 'for colname, col in obj.columns:\n    d[colname] = list(col)', 'return pd.DataFrame(d)'],
-        'convert.to_pandas')
+    body = pin_body(find_function(t_pd, 'to_pandas'), [
+        None, "if not isinstance(obj, DataMatrix):\n    raise TypeError('Expecting a column or DataMatrix')",
+        'd = {}', None, 'return pd.DataFrame(d)'], 'convert.to_pandas')
+    b0 = body[0]
+    if not (isinstance(b0, ast.If) and not b0.orelse and len(b0.body) == 1 and isinstance(b0.body[0], ast.Return)
+            and isinstance(b0.body[0].value, ast.Call) and len(b0.body[0].value.args) == 1):
+        raise TranslationError('convert.to_pandas: column branch')
+    expect_same(b0.test, 'isinstance(obj, BaseColumn)', 'convert.to_pandas')
+    src_col = cell_source(b0.body[0].value.args[0], 'obj', 'convert.to_pandas (column)')
+    expect_same(ast.Return(ast.Call(b0.body[0].value.func, [ast.Name('X', ast.Load())], b0.body[0].value.keywords)),
+                'return pd.Series(X, dtype=None)', 'convert.to_pandas')
+    b3 = body[3]
+    if not (isinstance(b3, ast.For) and not b3.orelse and len(b3.body) == 1 and isinstance(b3.body[0], ast.Assign)
+            and len(b3.body[0].targets) == 1):
+        raise TranslationError('convert.to_pandas: DataMatrix loop')
+    expect_same(ast.For(b3.target, b3.iter, [ast.Assign(b3.body[0].targets, ast.Name('X', ast.Load()))], []),
+                'for colname, col in obj.columns:\n    d[colname] = X', 'convert.to_pandas')
+    src_dm = cell_source(b3.body[0].value, 'col', 'convert.to_pandas (DataMatrix)')
+    out.append('(* convert.to_pandas: the cell list handed to pandas.Series / put into the dict for pandas.DataFrame *)\n'
+               'Definition k_pandas_src_col : cellsrc := %s.\nDefinition k_pandas_src_dm : cellsrc := %s.\n' % (src_col, src_dm))
+    t_bc = t_col
+    pin_body(find_function(t_bc, 'BaseColumn._printable_list'), ['return self._seq'], 'BaseColumn._printable_list')
+    t_nc = load(repo, 'datamatrix/_datamatrix/_numericcolumn.py')
+    pin_body(find_function(t_nc, 'NumericColumn._printable_list'), ['return list(self._seq)'], 'NumericColumn._printable_list')
+    t_sc = load(repo, 'datamatrix/_datamatrix/_seriescolumn.py')
+    body = pin_body(find_function(t_sc, '_SeriesColumn._printable_list'),
+                    [None, 'return [self._ellipsize(cell) for cell in self]'], '_SeriesColumn._printable_list')
+    if not (isinstance(body[0], ast.If) and not body[0].orelse and len(body[0].body) == 1):
+        raise TranslationError('_SeriesColumn._printable_list: shape')
+    expect_same(body[0].body[0], 'return list(self._seq)', '_SeriesColumn._printable_list')
+    keeps = tr_typed(body[0].test, Env([('self._depth', 'depth', 'Z')]), 'bool')
+    out.append('(* _SeriesColumn._printable_list: are the rows handed out as arrays (else ellipsized into text)? *)\n'
+               'Definition k_printable_keeps_rows (depth : Z) : bool := %s.\n' % keeps)
+    for cls, tree in (('MixedColumn', 'datamatrix/_datamatrix/_mixedcolumn.py'), ('FloatColumn', 'datamatrix/_datamatrix/_numericcolumn.py'),
+                      ('IntColumn', 'datamatrix/_datamatrix/_numericcolumn.py')):
+        for node in ast.walk(load(repo, tree)):
+            if isinstance(node, ast.ClassDef) and node.name == cls:
+                for ch in node.body:
+                    if isinstance(ch, ast.FunctionDef) and ch.name in ('_printable_list', '__iter__'):
+                        raise TranslationError('%s overrides %s' % (cls, ch.name))
+    # the series column keeps the state handling of BaseColumn
+    for node in ast.walk(t_sc):
+        if isinstance(node, ast.ClassDef) and node.name == '_SeriesColumn':
+            for ch in node.body:
+                if isinstance(ch, ast.FunctionDef) and ch.name in ('__getstate__', '__setstate__', '__reduce__',
+                                                                   '__reduce_ex__', '__getnewargs__'):
+                    raise TranslationError('_SeriesColumn overrides %s' % ch.name)
     return ''.join(out)
